@@ -71,6 +71,9 @@ func (r *run) syncEvent(as []*actor, e Ev) {
 	if len(calls) >= 2 {
 		r.res.Probes["par-calls"] += len(calls)
 	}
+	for _, c := range calls {
+		r.evOwners[r.step-1] = append(r.evOwners[r.step-1], callOwner(c))
+	}
 	var g *kernel.Rng
 	if len(calls) > 1 || e.S != 0 {
 		g = kernel.NewRng(e.S + 17)
